@@ -144,11 +144,12 @@ type RunStats struct {
 
 // Runner interprets a script against the cache and the model.
 type Runner struct {
-	Env    *Env
-	Cfg    Config
-	Facets Facet
-	M      map[int]*MEntry
-	St     RunStats
+	shapeErr string // a loader was called with an ill-formed argument list (reported at the end of the step)
+	Env      *Env
+	Cfg      Config
+	Facets   Facet
+	M        map[int]*MEntry
+	St       RunStats
 
 	step         int
 	seq          int
@@ -257,6 +258,16 @@ func (r *Runner) expiredUnswept(k int) bool {
 
 func (r *Runner) fail(f Facet, format string, args ...any) error {
 	msg := fmt.Sprintf(format, args...)
+	if r.shapeErr != "" {
+		// an ill-formed loader call precedes whatever went wrong in this step: report that (it contradicts the load and
+		// refresh properties as well as the sequential model)
+		msg, r.shapeErr = r.shapeErr, ""
+		for _, g := range []Facet{FRefresh, FLoad, FContents, FRet} {
+			if r.Facets&g != 0 {
+				return &Violation{Facet: g, Step: r.step, Msg: msg}
+			}
+		}
+	}
 	if r.Facets&f != 0 {
 		return &Violation{Facet: f, Step: r.step, Msg: msg}
 	}
@@ -783,6 +794,14 @@ func (l s1Loader) bulk(kind string, keys []int, olds []int) (map[int]int, error)
 	c := loaderCall{Kind: kind, Keys: ks, Out: out}
 	if olds != nil {
 		c.Olds = append([]int(nil), olds...)
+	}
+	if kind == "bulkreload" && len(olds) != len(keys) {
+		// "BulkReload(keys, oldValues)": one old value per key. Remember the disagreement (judged when the step is checked)
+		// and pad, so that the comparison code can index safely.
+		r.shapeErr = fmt.Sprintf("BulkReload was called with %d keys %v but %d old values %v", len(keys), keys, len(olds), olds)
+		for len(c.Olds) < len(keys) {
+			c.Olds = append(c.Olds, -1)
+		}
 	}
 	sorted := append([]int(nil), keys...)
 	sort.Ints(sorted)
@@ -1457,6 +1476,9 @@ func (r *Runner) Step(i int, a *Action) (err error) {
 		return fmt.Errorf("unknown op %q", a.Op)
 	}
 
+	if r.shapeErr != "" {
+		return r.failFirst([]Facet{FRefresh, FLoad, FContents, FRet}, "%s", r.shapeErr)
+	}
 	if err = r.reconcile(); err != nil {
 		return err
 	}
